@@ -4,6 +4,7 @@ import copy
 import hashlib
 import json
 import math
+import os
 import signal
 
 import numpy as np
@@ -41,7 +42,7 @@ def run_points(case, box=None, labels=None, queries=None, wall_s=300, state_hook
     P = C.plain_part_class(case["part"])
     out = {"points": [], "last": None, "crash": None, "qpoints": []}
     old = signal.signal(signal.SIGALRM, _alarm)
-    signal.alarm(int(wall_s))
+    signal.alarm(int(wall_s * float(os.environ.get("PYXABMON_WALL_SCALE", "1") or 1)))
     try:
         if poison is not None:
             poison_heap(poison)
